@@ -295,9 +295,12 @@ def build_catalogue():
     for (mask, c) in modes:
         fl = [x for comp in comps for x in mode_flags(comp, mask, c)]
         cat.append(sepfmt(f"SEP_ALL_{mode_tag(mask, c)}", fl, floats=("f64", "f32")))
+    all_int_types = ("u8", "u16", "u32", "u64", "u128", "usize", "i8", "i16", "i32", "i64", "i128", "isize")
     for comp in comps:
         for (mask, c) in modes:
-            cat.append(sepfmt(f"SEP_{comp[:3].upper()}_{mode_tag(mask, c)}", mode_flags(comp, mask, c), ints=("u32", "i64")))
+            # integer-component modes: every integer type (the multi-digit blocks and the overflow-free prefix of the
+            # integer parser depend on the type); other components: two types (the integer iterator is contiguous there)
+            cat.append(sepfmt(f"SEP_{comp[:3].upper()}_{mode_tag(mask, c)}", mode_flags(comp, mask, c), ints=all_int_types if comp == "integer" else ("u32", "i64")))
     seen_sep = set()
     n = 0
     while n < 60:
